@@ -643,7 +643,7 @@ def build_wrapper(info, pl, harness, modname=PLATFORM_MODULE):
         hc_post += [f"for {kv} in seq(0, 2):", "    " + hcall(hk["store"], f"{rn}[1 - {kv}, 0:{w}]", f"{outn}[{kv}, 1:{w + 1}]")]
     pre = hc_pre + pre
     post = post + hc_post
-    pname = "w_" + info.name
+    pname = f"w_{info.name}_p{pl['pidx']}"
     params = []
     # control arguments first (buffer shapes are constants, but keep exo's usual order)
     order = [w for w in wargs if w["role"] in ("ctl", "idx", "off")] + [w for w in wargs if w["role"] not in ("ctl", "idx", "off")]
@@ -675,42 +675,6 @@ def build_wrapper(info, pl, harness, modname=PLATFORM_MODULE):
     src = "\n".join(lines) + "\n"
     meta = {"proc": pname, "wargs": order, "call": f"{info.name}({', '.join(call_args)})", "ctl_mode": ctl_mode, "ctl_lit": ctl_lit}
     return src, meta
-
-
-def build_roundtrip(kind, harness, modname=PLATFORM_MODULE):
-    """DRAM -> register -> DRAM through the plain load and store of one register kind"""
-    mem, bt, w = kind.split(":")
-    w = int(w)
-    ld, st = harness[kind]["load"], harness[kind]["store"]
-
-    def call(h, rwin, dwin):
-        nm, rp, dp = h
-        args = [None, None]
-        args[rp], args[dp] = rwin, dwin
-        return f"{nm}({args[0]}, {args[1]})"
-
-    pname = "w_roundtrip_" + re.sub(r"\W", "_", kind)
-    src = "\n".join(
-        [
-            "from __future__ import annotations",
-            "from exo import proc, DRAM",
-            f"from {modname} import *",
-            "",
-            "",
-            "@proc",
-            f"def {pname}(a: {bt}[3, {w + 5}] @ DRAM, b: {bt}[3, {w + 4}] @ DRAM):",
-            f"    r: {bt}[3, {w}] @ {mem}",
-            "    for k in seq(0, 3):",
-            "        " + call(ld, f"r[k, 0:{w}]", f"a[k, 2:{w + 2}]"),
-            "    for k in seq(0, 3):",
-            "        " + call(st, f"r[2 - k, 0:{w}]", f"b[k, 3:{w + 3}]"),
-        ]
-    )
-    wargs = [
-        {"name": "a", "role": "mem", "bt": bt, "shape": [3, w + 5], "for": "a"},
-        {"name": "b", "role": "mem", "bt": bt, "shape": [3, w + 4], "for": "b"},
-    ]
-    return src + "\n", {"proc": pname, "wargs": wargs, "call": "roundtrip", "ctl_mode": {}, "ctl_lit": {}}
 
 
 # ----------------------------------------------------------------------------
@@ -882,77 +846,101 @@ def _line_buffered(drv):
     return drv.replace("int main(void) {", "int main(void) {\n  setvbuf(stdout, NULL, _IOLBF, 0);", 1)
 
 
-def execute(proc, specs, workdir, keep=False, max_rebuilds=2):
-    """specs: list of InputSpec.  One exo compile, one gcc build and one run for all inputs;
-    after a sanitizer abort at input k the inputs after k are run in a further build
-    (at most max_rebuilds times) so that one bad input does not hide the others."""
+class Prepared:
+    """one wrapper ready to be built: exo-compiled alone, inputs run through the interpreter"""
+
+    def __init__(self, proc, specs):
+        self.proc = proc
+        self.ir = proc._loopir_proc
+        self.specs = specs
+        self.res = ExecResult()
+        self.ins = []  # (index into specs, spec, interpreter argument values after the run, RunResult)
+        self.c_text = self.h_text = None
+        r = self.res
+        try:
+            self.c_text, self.h_text = cbuild.compile_exo([proc])
+        except Exception as e:
+            r.status = "exo_reject"
+            r.detail = f"{type(e).__name__}: {str(e)[:500]}"
+            return
+        r.c_text = self.c_text
+        for k, spec in enumerate(specs):
+            vals, cfg = spec.materialise()
+            res = Interp(exact=True, budget=200000).run(self.ir, vals, cfg)
+            if res.clean:
+                self.ins.append((k, spec, vals, res))
+            else:
+                r.unclean += 1
+                if r.unclean_event is None:
+                    ev = res.first_event()
+                    r.unclean_event = ev.as_dict() if ev else {"aborted": res.aborted}
+        if not self.ins:
+            r.status = "no_input"
+            r.detail = str(r.unclean_event)[:400]
+
+    @property
+    def ready(self):
+        return self.res.status is None
+
+
+def _absorb(r, ir, remaining, cases):
+    """compare the complete cases of one run with the interpreter; returns how many were complete"""
+    nbuf = sum(1 for a in remaining[0][1].args if a["k"] == "buf")
+    complete = [c for c in cases if len(c["bufs"]) == nbuf]
+    for (k, spec, vals, res), co in zip(remaining, complete):
+        r.ninputs += 1
+        if res.exact_ok:
+            r.nexact += 1
+        d = compare_full(ir, spec, co, vals, res.exact_ok)
+        if d:
+            if res.exact_ok:
+                r.bad.append(k)
+                r.diffs[k] = d
+            else:
+                r.napprox_mismatch += 1
+    return len(complete)
+
+
+def _classify_compile_error(err):
+    in_tc = [l for l in err.splitlines() if re.match(r"^t\.[ch]:\d+", l) and "error" in l]
+    in_drv = [l for l in err.splitlines() if l.startswith("driver.c:") and "error" in l]
+    return "driver_error" if (in_drv and not in_tc) else "gcc_reject"
+
+
+def run_prepared(p, workdir, keep=False, max_rebuilds=2, start=0):
+    """One gcc build and one run for all inputs of one wrapper; after a sanitizer abort at
+    input k the inputs after k are run in a further build (at most max_rebuilds times) so
+    that one bad input does not hide the others."""
     import shutil
 
-    r = ExecResult()
-    ir = proc._loopir_proc
-    try:
-        c_text, h_text = cbuild.compile_exo([proc])
-    except Exception as e:
-        r.status = "exo_reject"
-        r.detail = f"{type(e).__name__}: {str(e)[:500]}"
+    r = p.res
+    if not p.ready:
         return r
-    r.c_text = c_text
-    ins = []
-    for k, spec in enumerate(specs):
-        vals, cfg = spec.materialise()
-        res = Interp(exact=True, budget=200000).run(ir, vals, cfg)
-        if res.clean:
-            ins.append((k, spec, vals, res))
-        else:
-            r.unclean += 1
-            if r.unclean_event is None:
-                ev = res.first_event()
-                r.unclean_event = ev.as_dict() if ev else {"aborted": res.aborted}
-    if not ins:
-        r.status = "no_input"
-        r.detail = str(r.unclean_event)[:400]
-        return r
-    remaining = ins
+    remaining = p.ins[start:]
     try:
         while remaining:
             try:
-                drv = _line_buffered(cbuild.gen_driver(ir, h_text, [x[1] for x in remaining]))
+                drv = _line_buffered(cbuild.gen_driver(p.ir, p.h_text, [x[1] for x in remaining]))
             except (cbuild.BuildError, AssertionError, ValueError) as e:
                 r.status = "driver_error"
                 r.detail = repr(e)[:300]
                 return r
-            out = cbuild.build_and_run(c_text, h_text, drv, workdir)
+            out = cbuild.build_and_run(p.c_text, p.h_text, drv, workdir)
             r.builds += 1
             if out["status"] == "compile_error":
-                err = out["stderr"]
-                in_tc = [l for l in err.splitlines() if re.match(r"^t\.[ch]:\d+", l) and "error" in l]
-                in_drv = [l for l in err.splitlines() if l.startswith("driver.c:") and "error" in l]
-                r.status = "driver_error" if (in_drv and not in_tc) else "gcc_reject"
-                r.detail = err[-1800:]
+                r.status = _classify_compile_error(out["stderr"])
+                r.detail = out["stderr"][-1800:]
                 return r
             if out["status"] == "timeout":
                 r.status = "timeout"
                 r.detail = out.get("phase")
                 return r
             cases, done = cbuild.parse_output(out["stdout"], len(remaining))
-            # a case is complete when all its BUF lines are there
-            nbuf = sum(1 for a in remaining[0][1].args if a["k"] == "buf")
-            complete = [c for c in cases if len(c["bufs"]) == nbuf]
-            for (k, spec, vals, res), co in zip(remaining, complete):
-                r.ninputs += 1
-                if res.exact_ok:
-                    r.nexact += 1
-                d = compare_full(ir, spec, co, vals, res.exact_ok)
-                if d:
-                    if res.exact_ok:
-                        r.bad.append(k)
-                        r.diffs[k] = d
-                    else:
-                        r.napprox_mismatch += 1
+            ncomplete = _absorb(r, p.ir, remaining, cases)
             if out["status"] == "ok":
                 break
-            # sanitizer report / crash while running input number len(cases)
-            at = min(len(cases), len(remaining) - 1)
+            # sanitizer report / crash while running input number ncomplete
+            at = min(ncomplete, len(remaining) - 1)
             r.san.append((remaining[at][0], out["status"], out["stderr"][-2500:]))
             remaining = remaining[at + 1 :]
             if r.builds > max_rebuilds:
@@ -966,6 +954,107 @@ def execute(proc, specs, workdir, keep=False, max_rebuilds=2):
     finally:
         if not keep:
             shutil.rmtree(workdir, ignore_errors=True)
+
+
+def execute(proc, specs, workdir, keep=False, max_rebuilds=2):
+    """specs: list of InputSpec -> ExecResult (single wrapper)"""
+    return run_prepared(Prepared(proc, specs), workdir, keep=keep, max_rebuilds=max_rebuilds)
+
+
+def _merge_drivers(drvs):
+    """several gen_driver() outputs -> one C file whose main runs them one after the other"""
+    pre = None
+    fns = []
+    for j, d in enumerate(drvs):
+        head, rest = d.split("int main(void) {", 1)
+        if pre is None:
+            pre = head
+        fns.append(f"static int main_{j}(void) {{" + rest)
+    calls = "".join(f'  printf("WRAPPER {j}\\n"); main_{j}();\n' for j in range(len(drvs)))
+    return pre + "\n".join(fns) + "\nint main(void) {\n  setvbuf(stdout, NULL, _IOLBF, 0);\n" + calls + "  return 0;\n}\n"
+
+
+def _split_output(text, n):
+    segs = [[] for _ in range(n)]
+    cur = None
+    for line in text.splitlines():
+        if line.startswith("WRAPPER "):
+            cur = int(line.split()[1])
+        elif cur is not None and cur < n:
+            segs[cur].append(line)
+    return ["\n".join(s) for s in segs]
+
+
+def execute_batch(preps, workdir, max_rebuilds=2):
+    """Several wrappers in ONE gcc build (the cost of a build is dominated by <immintrin.h>
+    and the sanitizer runtime).  gcc rejecting the batch or a sanitizer abort falls back:
+    the wrapper concerned is built and run alone (exactly like `execute`), the others are
+    batched again.  Fills p.res of every Prepared; returns the number of gcc builds."""
+    import shutil
+
+    builds = 0
+    pending = [p for p in preps if p.ready]
+    guard = 0
+    while pending:
+        guard += 1
+        if len(pending) == 1 or guard > 6:
+            for p in pending:
+                run_prepared(p, workdir / f"solo{builds}", max_rebuilds=max_rebuilds)
+                builds += p.res.builds
+            break
+        try:
+            c_text, h_text = cbuild.compile_exo([p.proc for p in pending])
+            drv = _merge_drivers([cbuild.gen_driver(p.ir, h_text, [x[1] for x in p.ins]) for p in pending])
+        except Exception:
+            for p in pending:
+                run_prepared(p, workdir / f"solo{builds}", max_rebuilds=max_rebuilds)
+                builds += p.res.builds
+            break
+        wd = workdir / f"batch{builds}"
+        out = cbuild.build_and_run(c_text, h_text, drv, wd, timeout=60)
+        builds += 1
+        shutil.rmtree(wd, ignore_errors=True)
+        if out["status"] == "compile_error":
+            err = out["stderr"]
+            names = set(re.findall(r"In function [\u2018'`]([\w]+)[\u2019']", err))
+            offenders = [p for p in pending if str(p.ir.name) in names]
+            if not offenders or _classify_compile_error(err) == "driver_error":
+                offenders = list(pending)
+            for p in offenders:
+                run_prepared(p, workdir / f"solo{builds}", max_rebuilds=max_rebuilds)
+                builds += p.res.builds
+            pending = [p for p in pending if p not in offenders]
+            continue
+        if out["status"] == "timeout":
+            for p in pending:
+                p.res.status = "timeout"
+                p.res.detail = "batch " + str(out.get("phase"))
+            break
+        segs = _split_output(out["stdout"], len(pending))
+        crashed = None
+        for j, p in enumerate(pending):
+            cases, done = cbuild.parse_output(segs[j], len(p.ins))
+            if done:
+                _absorb(p.res, p.ir, p.ins, cases)
+                p.res.status = "mismatch" if p.res.bad else "ok"
+                p.res.builds = 0
+            else:
+                crashed = j
+                break
+        if out["status"] == "ok" and crashed is None:
+            break
+        if crashed is None:
+            # the report came after the last wrapper finished (leak check at exit, ...): decide alone
+            for p in pending:
+                p.res.__init__()
+                run_prepared(p, workdir / f"solo{builds}", max_rebuilds=max_rebuilds)
+                builds += p.res.builds
+            break
+        p = pending[crashed]
+        run_prepared(p, workdir / f"solo{builds}", max_rebuilds=max_rebuilds)
+        builds += p.res.builds
+        pending = pending[crashed + 1 :]
+    return builds
 
 
 def describe_diffs(info, meta, spec, diffs, limit=12):
